@@ -246,7 +246,7 @@ def resume_numbering(ctx):
     ctx.verify("", CORE, "SamplerCore._initialize_from_resume", setup, post, registry=reg, replayer="c08_checkpoint")
 
 
-def picklable_core(ctx):
+def picklable_core(ctx, replayer="c08_checkpoint"):
     """Data-structure invariant behind 'saving works with a worker pool': apart from config.pool (detached while
     pickling) no attribute of SamplerCore or of its step objects is ever assigned a process pool."""
     import ast
@@ -258,11 +258,11 @@ def picklable_core(ctx):
                 for t in n.targets:
                     if isinstance(t, ast.Attribute) and isinstance(t.value, ast.Name) and t.value.id == "self":
                         v = ast.unparse(n.value)
-                        if "Pool(" in v or v.endswith(".map") or "multiprocess" in v:
+                        if "Pool(" in v or v.endswith(".map") or "multiprocess" in v or v.endswith(".pool") or v == "pool":
                             bad.append((m, n.lineno, ast.unparse(n)[:80]))
     r = ObResult(f"{ctx.prop}/invariant/no-process-pool-stored-on-the-sampler", "discharged" if not bad else "violated", "pyvc-eff",
                  0.0, 1, "" if not bad else f"a pool is stored on a sampler object (unpicklable at the next save): {bad}", kind="effect")
-    r.replayer = "c08_checkpoint"
+    r.replayer = replayer
     ctx.add(r)
 
 
